@@ -6,11 +6,12 @@ CONSTANTS
   BoundPorts = {"mock","nft","mt"}
   Data = {"d1","d2","d3"}
   DecodableData = {"d2"}
+  EmptyData = ""
   AckTags = {"mock","unauth","errX","ok"}
   MaxSeq = 9
   F_BIND = FALSE
   F_ACKCB_SRC_ONLY = TRUE
-  F_STATUS = FALSE
+  F_STATUS = TRUE
   F_RELAY_DST_ERRACK = FALSE
 SPECIFICATION TraceSpec
 INVARIANT Done
